@@ -91,7 +91,12 @@ static void bk_tick(struct bk *b)
 	long w = b->mprev + b->cur - b->rate;
 	b->mprev = w > 0 ? w : 0;
 	b->cur = 0;
-	if (b->lo < b->burst) { b->lo += b->rate; if (b->lo > b->burst) b->lo = b->burst; }
+	/* Reference level = lower bound of what the documentation grants: refill by rate up to burst.
+	 * A level above burst (manual credit) is clipped at the next tick — the repaired
+	 * ev_token_bucket_update_ (C21) does that, the unrepaired one keeps more; either way
+	 * the real bucket holds at least this much once it has caught up. */
+	if (b->lo >= b->burst) b->lo = b->burst;
+	else { b->lo += b->rate; if (b->lo > b->burst) b->lo = b->burst; }
 }
 static void bk_fail(const char *who, int d, struct bk *b, const char *cls)
 {
